@@ -262,7 +262,7 @@ def run(ctx):
     if g is not None:
         ctx.fn(g.qual)
         gs = summarize(prog, g)
-        key_p, data_p = g.params[1], g.params[2]
+        key_p, data_p = g.args[0], g.args[1]
         for pc, ret, node, rst in gs.returns:
             if node is None:
                 continue
